@@ -182,7 +182,7 @@ func init() {
 		q := circularQueue.NewCircularQueue(cp)
 		o := &queueObs{cap: cp}
 		cps := map[int]bool{n: true}
-		for k := 3; k < 18; k++ {
+		for k := 3; k < 22; k++ {
 			for _, v := range []int{1<<uint(k) - 1, 1 << uint(k), 1<<uint(k) + 1} {
 				cps[v] = true
 			}
@@ -358,7 +358,7 @@ func init() {
 		return &Obs{Line: fmt.Sprintf("final %d", len(o.final)), Data: o, NoModel: true}
 	}
 	props["C18"] = &Prop{
-		Rule: "op queuelong <cap> <n>: 70,000 (thorough 140,000) additions with snapshots around every power of two up to 2^17; op queue <cap> a<id>… g…: operation sequences over capacities 1..8 — exhaustive add/snapshot interleavings to a bound (quick: length 8, thorough: 12) plus long runs far beyond the capacity — " +
+		Rule: "op queuelong <cap> <n>: 70,000 (thorough 140,000) additions with snapshots around every power of two up to 2^17, one run of 1,100,000 (thorough 2,200,000); op queue <cap> a<id>… g…: operation sequences over capacities 1..8 — exhaustive add/snapshot interleavings to a bound (quick: length 8, thorough: 12) plus long runs far beyond the capacity — " +
 			"against the model and the last-N oracle; op queueconc: one adder and 1..4 snapshot readers on the real queue, every snapshot must be a contiguous run of the addition order ending between " +
 			"the adds completed before its invocation and the adds begun before its return, of the right length; op queuemulti: 2..4 concurrent adders and 1..3 readers, then rounds in which one adder waits at the queue's lock while another addition overtakes it - all snapshots must be windows of one addition order (no message with two different direct successors or predecessors, each reader's later window continues its earlier one, per-goroutine order kept, lengths between the additions completed and begun); non-trivial = more additions than the capacity; distinct = distinct op line",
 		Gen: func(c *Ctx, emit func(class, op string)) {
@@ -407,6 +407,8 @@ func init() {
 			for _, cp := range []int{1, 2, 3, 8} {
 				emit("very-long-run", fmt.Sprintf("queuelong %d %d", cp, c.N(70000, 140000)))
 			}
+			// past 2^20 (thorough: 2^21) additions
+			emit("very-long-run", fmt.Sprintf("queuelong 2 %d", c.N(1100000, 2200000)))
 			for i := 0; i < c.N(6, 60); i++ {
 				emit("concurrent", fmt.Sprintf("queueconc %d %d %d", 1+r.Intn(8), 2000+r.Intn(4000), 1+r.Intn(4)))
 			}
